@@ -16,6 +16,8 @@ CHECKS = {
     "C11": {"scenarios": ["c11"], "quick_budget_s": 45, "thorough_budget_s": 600,
             "real": ["include/oneapi/tbb/concurrent_vector.h, detail/_segment_table.h"],
             "assumptions": ["'index-to-segment arithmetic is a bijection for every index' is a pure function of the index: exercised, not decided", "sizes >= 2^31 / 2^32 are covered by a native reproducer of the fixed defect only, not inside the simulator"]},
+    "C12": {"scenarios": ["c12"], "quick_budget_s": 45, "thorough_budget_s": 600,
+            "real": ["include/oneapi/tbb/concurrent_unordered_{map,set}.h, concurrent_{map,set}.h, detail/_concurrent_unordered_base.h (split-ordered list), detail/_concurrent_skip_list.h"]},
     "C13": {"scenarios": ["c13"], "quick_budget_s": 40, "thorough_budget_s": 600,
             "real": ["include/oneapi/tbb/concurrent_priority_queue.h, detail/_aggregator.h"]},
     "C08": {"scenarios": ["c08"], "quick_budget_s": 45, "thorough_budget_s": 600,
@@ -47,6 +49,17 @@ ASSUMPTIONS = [
 NOT_APPLICABLE = {}
 
 MANIFEST_TEXT = {
+    "C10": {"level": "Seeded search over schedules of 2-4 simulated threads doing insert/emplace/find/count/erase (by key and by accessor, holding accessors across schedule points) on the real concurrent_hash_map with identity / constant / low-bit-colliding hashers, 1-2 initial buckets and sequential prefills that park the table at each growth threshold; "
+                     "oracle: per-key Wing-Gong-Lowe linearizability against a sequential map (values carry unique tags), reader/writer holder bookkeeping inside the mapped value, destructor check (no element destroyed under an accessor), size()/traversal/find agreement at quiescence.",
+            "note": "<= 22 concurrent operations on <= 6 keys per run; P-compositional per-key checking; SC at atomic-operation granularity."},
+    "C11": {"level": "Seeded search over schedules of 2-4 simulated threads doing push_back/emplace_back/grow_by/grow_to_at_least across the first-block decision, segment boundaries and the embedded-to-long table switch; oracle: returned ranges disjoint/contiguous/tiling, each address constructed exactly once (constructor registry), requested values, address stability of sampled elements, grow_to_at_least waits for construction; "
+                     "separate fault modes (throwing constructor / failing allocator at the k-th call) check only what the statement promises after a failure (destructible, accesses work or throw, ASan-clean).",
+            "note": "sizes >= 2^31 are not run inside the simulator (a native reproducer of the fixed grow_to_at_least defect exists); index-to-segment bijection is a pure function, exercised only."},
+    "C12": {"level": "Seeded search over schedules of 2-4 simulated threads doing insert/emplace/find/count/contains and complete traversals on all 8 container types (unordered: identity / constant / adversarial hashers, 1-2 initial buckets, prefills forcing table doublings; ordered: skip-list levels vary with the simulated time() seed); "
+                     "oracle: one winner per key in unique containers and losers point at the winner, contents == successful inserts, find after a returned insert succeeds, traversals without duplicates that contain every element inserted before they began, comparator order / contiguity of equivalent elements, bounds queries at quiescence.",
+            "note": "<= 24 operations on <= 10 keys per run."},
+    "C13": {"level": "Seeded search over schedules of 2-4 simulated threads doing push/emplace/try_pop (4-value priority domain, unique ids) on the real concurrent_priority_queue; oracle: Wing-Gong-Lowe linearizability against a priority multiset, conservation after a final drain, and (separate mode) a throwing element copy at the k-th copy must reach only its own caller and have no effect.",
+            "note": "<= 20 concurrent operations per run; aggregator batches are whatever the schedule produces."},
     "C05": {"level": "Seeded search over steal patterns (the simulated scheduler decides which subtasks are stolen) of parallel_for over instrumented blocked_range (all four partitioners, affinity replay, sizes 0..4096 with per-element counters, huge ranges > 2^24 / > 2^32 / near 2^64 with chunk-level accounting), 2d/3d/nd ranges, integer overloads, parallel_for_each (forward / random-access iterators, feeder) and parallel_invoke; "
                      "oracle: visit counters, chunks non-empty / disjoint / covering / in bounds, indivisible ranges never split, simple_partitioner chunk-size bounds.",
             "note": "the (begin,end,grain) quantifier is a pure-input clause: sampled with corner-biased values, not decided; schedule-dependent part decided by seeded search."},
